@@ -734,7 +734,7 @@ def run(ctx):
 		for site in rng.sample(sites, min(len(sites), ctx.scale(60, 1000))):
 			checker.check_break(wire, site, f'shipped:{name}', None, baseline, reference)
 
-	count = ctx.scale(62, 750)
+	count = ctx.scale(62, 600)
 	for index in range(count):
 		text = gen_consistent(rng)
 		label = f'random:{index}'
